@@ -126,7 +126,7 @@ def examine(chk, name, start, prods, tags, tier, stats):
         stats["tags"][t] = stats["tags"].get(t, 0) + 1
     gtext = "start %s; " % start + "; ".join(str(p) for p in prods)
     oracle = cfg.Oracle(start, [(p.lhs, p.rhs) for p in prods])
-    signal.setitimer(signal.ITIMER_REAL, 300)
+    signal.setitimer(signal.ITIMER_REAL, 120)
     try:
         parser, g, exc = build_real(start, prods)
         if exc is not None:
@@ -161,8 +161,9 @@ def examine(chk, name, start, prods, tags, tier, stats):
         allp = uprods + [g.productions[-1]]
         aut, plist = lr1dump.dump_automaton(parser, "g", False, sym, code, prod_list=allp)
         case.lines += [aut, lr1dump.gram_line(start, uprods, sym),
-                       lr1dump.cert_line(parser, allp, sym), "LRVALID g"]
+                       lr1dump.cert_line(parser, allp, sym), "LRVALID g", "LRTERM g"]
         case.checks.append((3, "valid", None))
+        case.checks.append((4, "term", None))
         alphabet = list(oracle.terminals)
         if len(alphabet) <= 3 and "z" not in alphabet:
             alphabet.append("z")          # a token the grammar does not know
@@ -207,7 +208,7 @@ def examine(chk, name, start, prods, tags, tier, stats):
         chk.nontrivial("free:" + gtext)
         return case
     except Alarm:
-        chk.violation("input", {"input": gtext, "observed": "no result within 300 s",
+        chk.violation("input", {"input": gtext, "observed": "no result within 120 s",
                                 "expected": "termination"}, key="timeout:" + name)
         return None
     finally:
@@ -321,6 +322,20 @@ def compare_model(chk, case, answers, stats):
                 "theorem_or_correspondence": "LRVALID (Lean `Valid`) rejects the tables of a conflict-free "
                                              "Grammar.parser(); the oracle found no failing string",
                 "expected": "valid"}, found_input=False)
+        elif kind == "term":
+            # termination analysis (TermOK, theorem C08_terminates): a real loop on a short input
+            # would have hit the per-grammar alarm; here the table as a whole is analysed
+            if ans == "terminates":
+                stats["terminates"] = stats.get("terminates", 0) + 1
+                continue
+            disagreements += 1
+            if case.bad or too_many(chk):
+                continue
+            chk.violation("correspondence", {
+                "input": case.grammar_text(), "model": ans,
+                "theorem_or_correspondence": "LRTERM (Lean `TermOK`) finds a chain of reductions that does not "
+                                             "come to an end in the tables of a conflict-free Grammar.parser()",
+                "expected": "terminates"}, found_input=False)
         else:
             if ans == case.real[w]:
                 continue
@@ -407,8 +422,9 @@ def emboss_cases(chk, tier, stats, model_ok):
                     lr1dump.cert_line(parser, all_prods, sym) + "\n")
         stats["emboss_all_nonterminals_productive_" + slot] = emboss_oracle(start, user).reduced
         case = Case("emboss-" + slot, start, user, ["emboss"])
-        case.lines += ["LOADF " + path, "LRVALID " + slot]
+        case.lines += ["LOADF " + path, "LRVALID " + slot, "LRTERM " + slot]
         case.checks.append((1, "valid", None))
+        case.checks.append((2, "term", None))
         case.grammar_text = lambda slot=slot: "Emboss %s grammar (module_ir.PRODUCTIONS)" % slot
         # token streams
         streams = []
